@@ -12,6 +12,16 @@ def LegalLine : Pos → List Mv → Prop
   | _, [] => True
   | p, m :: ms => legalB p m = true ∧ LegalLine (nextPos p m) ms
 
+def legalLineB : Pos → List Mv → Bool
+  | _, [] => true
+  | p, m :: ms => legalB p m && legalLineB (nextPos p m) ms
+
+theorem legalLineB_iff : ∀ (p : Pos) (ms : List Mv), legalLineB p ms = true ↔ LegalLine p ms
+  | _, [] => by simp [legalLineB, LegalLine]
+  | p, m :: ms => by simp [legalLineB, LegalLine, legalLineB_iff (nextPos p m) ms]
+
+instance (p : Pos) (ms : List Mv) : Decidable (LegalLine p ms) := decidable_of_iff _ (legalLineB_iff p ms)
+
 /-- positions equal under the repetition rule: same board, side to move, castling rights and e.p. capturability -/
 def sameRules (p q : Pos) : Prop := drawKey (fixupEP p) = drawKey (fixupEP q)
 
